@@ -113,4 +113,54 @@ def traits_plan(ctx):
         h = ctx.write('t_%s.c' % c['name'], text)
         qs.append(vf.Query('traits/' + c['name'], unit, h, unwind=N + 3, unwindset=['harness.%d:21' % i for i in range(12)],
                            bounds={'N': N, 'rule': c['cxx'], 'trait_tree': tree}, note='analyze_traits of %s conservative w.r.t. the real rule' % c['cxx']))
+    # rules without a reference semantics in pegspec (raw_string with content rules): "certified => terminates".
+    # Under the assumption that the analysis reports NO self-loop for the flags c[], the real rule must terminate on every input
+    # (unwinding assertions; on replay the stubs report an exhausted call budget) and its consumes-verdict must be sound.
+    TERM = r"""/* generated harness (C11 b, certified => terminates): %(cxx)s */
+#define SP_N %(N)d
+#define SP_K 3
+#define SP_MAXRES 1
+#define SP_BYTES 1
+#define SP_LOG 20
+#define VF_ALPHABET "[[=]]a"
+#include "verif.h"
+#include "symtab.h"
+static u8 c[12];
+static void harness(void) {
+  sp_setup();
+  for (int k = 0; k < 12; ++k) c[k] = 0;
+  for (int k = 0; k < SP_K; ++k) c[k] = (u8)IN(0, 1);
+  for (int k = 0; k < SP_K; ++k) for (u64 p = 0; p <= SP_N; ++p) ASSUME(!c[k] || T_res[k][p] != 1 || T_np[k][p] > p);
+  /* trait tree: %(tree)s */
+  ASSUME(!(%(selfloop)s));   /* the analysis finds no repetition that can re-enter its body without progress */
+  u64 o[8];
+  w_%(name)s_ar(sp_buf, sp_n, sp_start, o);
+  ASSUME(!sp_exhausted);
+  CHECK(!(%(consumes)s) || o[0] != 1 || o[1] > sp_start, "a rule the analysis treats as always-consuming really consumes whenever it succeeds");
+  for (unsigned i = 0; i < SP_LOG; ++i) if (i < sp_nlog && sp_log_pos[i] == sp_start) {
+    u8 k = sp_log_k[i];
+%(edges)s
+  }
+  OBS(o[0]); OBS(o[1]);
+  REACH(o[0] == 1 && sp_nlog >= 1, "literal matched and the content rule was entered");
+}
+"""
+    term_cases = [{'name': 't_raw_string', 'cxx': "raw_string< '[', '=', ']', sym<0> >", 'inc': 'tao/pegtl/contrib/raw_string.hpp'},
+                  {'name': 't_raw_string2', 'cxx': "raw_string< '[', '=', ']', sym<0>, sym<1> >", 'inc': 'tao/pegtl/contrib/raw_string.hpp'}]
+    ttrees = traitgen.dump_traits([(c['name'], c['cxx']) for c in term_cases], vf.INC, os.path.join(vf.VERIF, 'harness'), includes=['tao/pegtl/contrib/raw_string.hpp'])
+    NT = 5
+    for c in term_cases:
+        tree = ttrees[c['name']]
+        edges, selfs = traitgen.start_edges(tree)
+        el = []
+        for k in range(3):
+            cond = ' || '.join(edges.get(k, [])) or '0'
+            el.append('    if (k == %d) CHECK(%s, "every sub-rule the real rule enters at its start position is an edge of its analyze_traits reachable without consumption");' % (k, cond))
+        text = TERM % {'N': NT, 'cxx': c['cxx'], 'name': c['name'], 'tree': __import__('json').dumps(tree), 'selfloop': ' || '.join(selfs) or '0',
+                       'consumes': traitgen.consumes(tree), 'edges': '\n'.join(el)}
+        c2 = dict(c, spec=None)
+        unit = ctx.unit('c11t_' + c['name'], text=symgen.wrapper_text([c], includes=[c['inc']], variants='4'))
+        h = ctx.write('t_%s.c' % c['name'], text)
+        qs.append(vf.Query('traits/' + c['name'], unit, h, unwind=NT + 3, unwindset=['harness.%d:21' % i for i in range(12)], mem_gb=4,
+                           bounds={'bytes': NT, 'rule': c['cxx'], 'trait_tree': tree}, note='analyze_traits of %s: certified => terminates, verdict sound' % c['cxx']))
     return qs
